@@ -77,7 +77,7 @@ def main():
                 else:
                     ctx.crash("shard %s" % shard.get("name"))
             r = ctx.result()
-            r["reach"] = reach.stop_reach() if anchors and not shard.get("no_reach") else {}
+            r["reach"] = reach.stop_reach(getattr(mod, "REQUIRED_REACH", [])) if anchors and not shard.get("no_reach") else {}
             r["attached"] = list(contracts.ATTACHED)
             hashes = r.pop("hashes")
             states = r.pop("states")
